@@ -168,12 +168,13 @@ def convert(dt, text):
 # ---------------------------------------------------------------------------
 # name vocabularies
 
+LONG_NAME = "k" + "x" * 69        # 70 characters: no limit is documented
 KEY_NAMES = {
     "basic-key": ["alpha", "beta", "a-b", "gamma", "k.x", "delta9",
-                  "x--y"],
-    "identifier": ["alpha", "Beta", "a_b", "gamma", "Delta9"],
+                  "x--y", LONG_NAME],
+    "identifier": ["alpha", "Beta", "a_b", "gamma", "Delta9", LONG_NAME],
     "ipaddr-or-hostname": ["alpha", "host-b", "h1.example", "gamma",
-                           "10.0.0.1", "x--y"],
+                           "10.0.0.1", "x--y", LONG_NAME],
 }
 WILD_KEYS = {
     "basic-key": ["wild", "Wild", "w-2", "zed"],
@@ -190,7 +191,8 @@ SECTION_NAMES = ["n1", "n2", "N3", "main", "aux", "alpha", "zz",
                  "Straße", "ΣΊΣΥΦΟΣ", "Maſt", "ÉCOLE",
                  # names may end in (or consist of) slashes: '<t dir//>' is
                  # the empty form of a section named 'dir/'
-                 "dir/", "/Srv/www/", "//", "Re\u0301sume\u0301"]
+                 "dir/", "/Srv/www/", "//", "Re\u0301sume\u0301",
+                 "n" + "y" * 79]
 HANDLERS = ["h1", "h2", "H3", "h-4"]
 
 
@@ -419,7 +421,9 @@ def _gen_key_child(rng, cont_kt, used_names, used_attrs, has_wild, counter):
         c["name"] = name
         attr = derive_attribute(name)
         if attr is None or attr in used_attrs or rng.random() < 0.15:
-            attr = "attr_%d" % next(counter)
+            # (an attribute name may begin with an underscore)
+            attr = ("attr_%d" if rng.random() < 0.7 else "_attr_%d") \
+                % next(counter)
             c["attribute"] = attr
     attr = c["attribute"] or derive_attribute(c["name"])
     if attr in used_attrs:
@@ -495,7 +499,8 @@ def _gen_section_child(rng, cont_kt, used_names, used_attrs, types_avail,
         else:
             c["name"] = rng.choice(pool)
     if c["name"] in ("*", "+"):
-        c["attribute"] = "sect_%d" % next(counter)
+        c["attribute"] = ("sect_%d" if rng.random() < 0.8 else "_sect_%d") \
+            % next(counter)
     else:
         attr = derive_attribute(c["name"])
         if attr in used_attrs or rng.random() < 0.2:
